@@ -24,8 +24,7 @@ def mutate_list(pat, l, rng):
         d = dict(base)
         if kind == 'change':
             i = rng.choice(list(d))
-            d[i] = d[i] + rng.choice(NZ)
-            d[i] %= (1 << 256)
+            d[i] = wkd.nudge(d[i], rng, NZ)
         elif kind == 'drop':
             i = rng.choice(list(d))
             del d[i]
@@ -83,7 +82,7 @@ def worker(sh):
             for i in range(3):
                 d = dict(base)
                 if i in d:
-                    d[i] = (d[i] + rng.choice(NZ)) % (1 << 256)
+                    d[i] = wkd.nudge(d[i], rng, NZ)
                     if differ(3, tuple(pat), sorted(d.items())):
                         sc.dec(kid, 0, sorted(d.items()), 0, 0, 'list:change/exhaustive-l3')
                     d2 = dict(base)
@@ -142,6 +141,22 @@ def worker(sh):
         sc.add('adjust %d %d %s %s' % (k3, kid, alist(to, False, {i: carried}), alist(frm)), 'raw')
         sc.dec(k3, 0, frm, 1, 0, 'positive/adjust-unhide/' + ('same-id' if carried == v else 'other-id'))
         sc.dec(k3, 0, fl, 0, 0, 'adjust-unhide:slot-dropped')
+    # documented adjustment that hides every remaining free slot through the LIST-LEVEL flag while the listed slots stay where they
+    # are (same ids, or one id changed): the adjusted key must resist the filling attempts below like any key made with that flag
+    for kid, pat, op in list(keys):
+        free = free_slots(pat)
+        if len(free) < 2 or op == 'adjust' or rng.random() < (0.4 if l > 3 else 0.0):
+            continue
+        i = rng.choice(free)
+        v = rng.choice(NZ)
+        fl = fixed_list(pat)
+        frm = sorted(fl + [(i, v)])
+        to = frm if rng.random() < 0.5 else sorted(fl + [(i, wkd.nudge(v, rng, NZ))])
+        k2 = sc.newkey()
+        sc.add('ndqualify %d 0 %d %d %s %d' % (k2, kid, max(0, l - len(frm)), alist(frm), sc.seed()), 'raw')
+        sc.add('adjust %d %d %s %s' % (k2, kid, alist(frm), alist(to, True)), 'raw')
+        sc.dec(k2, 0, [(j, x) for j, x in to], 1, 0, 'positive/adjust-omit-all/' + ('same-ids' if to == frm else 'id-changed'))
+        keys.append((k2, wkd.qualify_pattern(pat, to, True), 'adjust'))
     # attempts to give a hidden slot a value
     for kid, pat, op in keys:
         hidden = [i for i, s in enumerate(pat) if s == 'H']
@@ -173,6 +188,7 @@ def worker(sh):
             t2[i] = v
             sc.dec(k2, 0, sorted(t2.items()), 0, 0, 'hidden-fill-only:' + attempt)
     outs = session.run_all(sh, sh.payload['cfgs'], sc.lines)
+    sh.count('scheme_ops_with_crafted_random_streams', getattr(sc, 'nstream', 0))
     for line, (kind, kw), out in zip(sc.lines, sc.exp, outs):
         if out is None:
             continue
